@@ -628,9 +628,12 @@ PROPS["C01"].update({
     "profiles": PROPS["C01"]["profiles"] + CONN_PROFILES,
     "history_starts": ("e2e_run", "cn_new"),
 })
-if _load_theorems("C01Streams"):
-    PROPS["C01"]["theorems"] = PROPS["C01"]["theorems"] + _load_theorems("C01Streams")
-    PROPS["C01"]["lean_targets"] = PROPS["C01"]["lean_targets"] + ["H2V.Props.C01Streams"]
-if _load_theorems("C08NoPanic"):
-    PROPS["C08"]["theorems"] = PROPS["C08"]["theorems"] + _load_theorems("C08NoPanic")
-    PROPS["C08"]["lean_targets"] = PROPS["C08"]["lean_targets"] + ["H2V.Props.C08NoPanic"]
+# further theorem files delivered per property. A file is registered by hand, once the proof agent that owns it
+# reports a stable green build (files still being worked on must not be able to break a registered check):
+# candidates: ("C01", "C01Streams"), ("C08", "C08NoPanic"), ("C06", "C06Drain"), ("C15", "C15Cover"),
+#             ("C16", "C16Cover"), ("C09", "C09Cover"), ("C03", "C03Cover")
+REGISTERED_EXTRAS = []
+for _pid, _extra in REGISTERED_EXTRAS:
+    if _load_theorems(_extra):
+        PROPS[_pid]["theorems"] = PROPS[_pid]["theorems"] + _load_theorems(_extra)
+        PROPS[_pid]["lean_targets"] = PROPS[_pid]["lean_targets"] + ["H2V.Props." + _extra]
